@@ -67,6 +67,7 @@ type vfPeer struct {
 	gone    int32
 	closed  int32
 	hold    chan struct{} // if non-nil every Send waits here before it returns
+	gate    func()        // if non-nil every Send calls it right before it returns (rendezvous of simultaneous sends)
 }
 
 func (p *vfPeer) Start() (error, bool) {
@@ -108,6 +109,7 @@ func (p *vfPeer) Send(b bpv7.Bundle) (err error) {
 		ok, p.script = p.script[0], p.script[1:]
 	}
 	hold := p.hold
+	gate := p.gate
 	p.mu.Unlock()
 	if werr != nil {
 		ok = false
@@ -116,6 +118,9 @@ func (p *vfPeer) Send(b bpv7.Bundle) (err error) {
 	p.sim.record(s)
 	if hold != nil {
 		<-hold
+	}
+	if gate != nil {
+		gate()
 	}
 	if !ok {
 		return fmt.Errorf("scripted send failure")
